@@ -30,7 +30,9 @@ func init() {
 }
 
 // c16Zone builds the universe for a zone version (addresses embed the version).
-func c16Zone(version int, failing bool) zoneh.Universe {
+// failing: 0 = healthy, 1 = every request fails in transport, 2 = every request is answered with an
+// error response code (SERVFAIL, REFUSED, and codes without a name of their own: YXDOMAIN 6, NOTAUTH 9)
+func c16Zone(version int, failing int) zoneh.Universe {
 	u := zoneh.Universe{}
 	v := byte(version)
 	ans := func(owner string, typ int, ttl uint32, last byte) zoneh.Ans {
@@ -61,11 +63,17 @@ func c16Zone(version int, failing bool) zoneh.Universe {
 		{Owner: "d.example", Type: 65, TTL: 60, HTTPS: &zoneh.HTTPS{Priority: 2, ALPN: []string{"h3"}, ECH: []byte{v, 2}}},
 		{Owner: "d.example", Type: 65, TTL: 60, HTTPS: &zoneh.HTTPS{Priority: 1, ALPN: []string{"h2", "http/1.1"}, ECH: []byte{v, 1}}},
 	}}
-	if failing {
+	if failing == 1 {
 		for k := range u {
 			u[k] = zoneh.Resp{Fail: true}
 		}
 		u[zoneh.Key{Name: "c.example", Type: 65}] = zoneh.Resp{Fail: true}
+	}
+	if failing == 2 {
+		u[zoneh.Key{Name: "c.example", Type: 65}] = zoneh.Resp{}
+		for k := range u {
+			u[k] = zoneh.Resp{RCode: []int{9, 6, 2, 5}[(len(k.Name)+k.Type+version)%4]}
+		}
 	}
 	return u
 }
@@ -104,7 +112,7 @@ func genC16(env *core.Env, emit func(core.Case)) {
 	ech.VerifSetClock(clock.now)
 	defer ech.VerifSetClock(nil)
 	srv.Now = func() int64 { clock.mu.Lock(); defer clock.mu.Unlock(); return clock.sec }
-	alphabet := []string{"ra", "rb", "rc", "adv3", "adv8", "adv301", "zone", "fail"}
+	alphabet := []string{"ra", "rb", "rc", "adv3", "adv8", "adv301", "zone", "fail", "rcode"}
 	names := map[string]string{"ra": "a.example", "rb": "b.example", "rc": "c.example"}
 	runHistory := func(hist []string, stream string) {
 		resolver, err := ech.NewResolver(srv.URL())
@@ -114,7 +122,7 @@ func genC16(env *core.Env, emit func(core.Case)) {
 		clock.mu.Lock()
 		clock.sec = 1000
 		clock.mu.Unlock()
-		version, failing := 1, false
+		version, failing := 1, 0
 		srv.Set(c16Zone(version, failing))
 		srv.TakeLog()
 		ops := []core.Op{{Line: "cache-reset", Kind: 'M', Want: "ok"}}
@@ -137,7 +145,18 @@ func genC16(env *core.Env, emit func(core.Case)) {
 				version = 3 - version
 				srv.Set(c16Zone(version, failing))
 			case "fail":
-				failing = !failing
+				if failing == 1 {
+					failing = 0
+				} else {
+					failing = 1
+				}
+				srv.Set(c16Zone(version, failing))
+			case "rcode":
+				if failing == 2 {
+					failing = 0
+				} else {
+					failing = 2
+				}
 				srv.Set(c16Zone(version, failing))
 			default:
 				name := names[op]
@@ -222,7 +241,7 @@ func genC16(env *core.Env, emit func(core.Case)) {
 		}
 	}
 	rec(nil)
-	env.Exhaustive(fmt.Sprintf("all histories of length <= %d over the 8-letter alphabet that end in a resolve", L))
+	env.Exhaustive(fmt.Sprintf("all histories of length <= %d over the 9-letter alphabet that end in a resolve", L))
 	for i := 0; i < env.Pick(300, 2500); i++ {
 		n := 6 + r.IntN(8)
 		var h []string
@@ -243,7 +262,7 @@ func genC16(env *core.Env, emit func(core.Case)) {
 func genC16R(env *core.Env, emit func(core.Case)) {
 	srv := zoneh.NewServer(env.Seed + 1)
 	defer srv.Close()
-	srv.Set(c16Zone(1, false))
+	srv.Set(c16Zone(1, 0))
 	for _, workers := range []int{2, 4, 16} {
 		resolver, err := ech.NewResolver(srv.URL())
 		if err != nil {
@@ -322,6 +341,48 @@ func genC16R(env *core.Env, emit func(core.Case)) {
 			}
 			close(start)
 			wg2.Wait()
+		}
+		// readers served from the cache while another goroutine refreshes the same entry after its expiry
+		// (injected clock): the hit path and the refresh path of one cache entry side by side
+		{
+			clock := &c16Clock{}
+			ech.VerifSetClock(clock.now)
+			rs, err := ech.NewResolver(srv.URL())
+			if err != nil {
+				panic(err)
+			}
+			for round := 0; round < 15; round++ {
+				rs.Resolve(context.Background(), "d.example") // fill or refresh
+				var wg3 sync.WaitGroup
+				stop := make(chan struct{})
+				for g := 0; g < workers; g++ {
+					wg3.Add(1)
+					go func() {
+						defer wg3.Done()
+						for {
+							select {
+							case <-stop:
+								return
+							default:
+							}
+							if res, err := rs.Resolve(context.Background(), "d.example"); err == nil {
+								for t := range res.Targets("tcp") {
+									_ = t
+								}
+							}
+						}
+					}()
+				}
+				time.Sleep(300 * time.Microsecond)
+				clock.mu.Lock()
+				clock.sec += 61 // past every TTL of d.example
+				clock.mu.Unlock()
+				rs.Resolve(context.Background(), "d.example") // refresh while the readers are running
+				time.Sleep(300 * time.Microsecond)
+				close(stop)
+				wg3.Wait()
+			}
+			ech.VerifSetClock(nil)
 		}
 		emit(core.Case{Name: fmt.Sprintf("concurrent/%d", workers), Stream: "concurrent", Key: "concurrent", Sig: fmt.Sprintf("concurrent/%d", workers),
 			Ops:    []core.Op{{Kind: 'X', Note: "concurrent Resolve/Targets on one Resolver and on a shared result: no panic, consistent targets (data races: race detector, thorough tier)", Want: w}},
